@@ -16,10 +16,13 @@ svars == <<vars, script>>
 Lbl(op, j, o) == [op |-> op, job |-> j, out |-> o]
 Log(op, j, o) == script' = Append(script, Lbl(op, j, o))
 
-SimInit == Init /\ script = <<>>
+\* the simulator draws the per-job contexts at random instead of enumerating them
+SimInit == /\ InitBase /\ script = <<>>
+           /\ jctx = [j \in Jobs |-> IF CTX2 /\ RandomElement(1..3) = 1 THEN 2 ELSE 1]
 
 SimNext ==
   \/ Cancel /\ RandomElement(1..12) = 1 /\ Log("cancel", 0, "")   \* rarely: Cancel is enabled in every state
+  \/ Cancel2 /\ RandomElement(1..12) = 1 /\ Log("cancel2", 0, "")
   \/ CallerEnqueue /\ Log("enq", cpc, "")
   \/ CallerWaitClose /\ Log("close", 0, "")
   \/ (CallerWaitCtx \/ CallerWaitFin) /\ Log("ret", 0, "")
@@ -41,5 +44,6 @@ Emit == AllQuiet =>
           PrintT(<<"SCRIPT", ToJson([nj |-> nJ, n |-> nW, coe |-> coe,
                                      deps |-> [j \in 1..nJ |-> deps[j]],
                                      out |-> [j \in 1..nJ |-> outcome[j]],
+                                     jctx |-> [j \in 1..nJ |-> jctx[j]],
                                      steps |-> script])>>)
 =============================================================================
